@@ -2,7 +2,7 @@
    This file contains only the property theorems; each is closed by [exact] of a
    lemma from Proofs/RetryProofs.v and followed by Print Assumptions. *)
 From Coq Require Import List ZArith Bool Lia.
-From Shoot Require Import Model.Retry Proofs.RetryProofs.
+From Shoot Require Import Model.Retry Proofs.RetryProofs Corr.RetryCorr Proofs.RetryCorrProofs.
 Import ListNotations.
 
 (* acceptable = "a response with status below 500 and no error" *)
@@ -53,6 +53,19 @@ Print Assumptions C20_trace_shape.
 Theorem C20_negative_n : forall n script, (n < 0)%Z -> retry n script = ([], (None, None)).
 Proof. exact retry_negative. Qed.
 Print Assumptions C20_negative_n.
+
+(* the boolean property the correspondence evaluates on the implementation's observation is the
+   statement above: [first_acc] computes the declarative first acceptable attempt, and the property
+   holds of the model's own observation for every n and script, so a non-zero verdict always is a
+   difference between the implementation and the model *)
+Theorem C20_Pb_first_acc_is_first_acceptable : forall l fuel a j,
+  first_acc l a fuel = Some j -> first_acceptable (script_of l (RErr 0 None)) a fuel j.
+Proof. exact first_acc_some. Qed.
+Print Assumptions C20_Pb_first_acc_is_first_acceptable.
+
+Theorem C20_Pb_holds_on_model : forall n l, Pb n l (model_obs n l) = true.
+Proof. exact Pb_holds_on_model. Qed.
+Print Assumptions C20_Pb_holds_on_model.
 
 (* non-vacuity: a concrete script meeting the hypotheses of both main theorems *)
 Example C20_example_hit :
